@@ -207,15 +207,47 @@ func VerifC11Errors() {
 		dec := Options{ErrCache: new(sync.Map)}
 		enc.ErrCache.Store(errC11Sentinel, id)
 		dec.ErrCache.Store(id, errC11Sentinel)
+		// where the sentinel sits: alone, or in an interface-typed / error-typed slot of a collection
+		var v any = errC11Sentinel
+		pos := lib.VerifPick("position", 4)
+		switch pos {
+		case 1:
+			v = []any{int32(7), errC11Sentinel}
+		case 2:
+			v = map[string]any{"k": errC11Sentinel}
+		case 3:
+			v = []error{errC11Sentinel}
+		}
 		b := lib.TakeBuffer()
-		err := Encode(errC11Sentinel, b, enc)
+		err := Encode(v, b, enc)
 		lib.VerifAssert(err == nil, "sentinel: the encoder accepts the value")
 		out, tail, err := Decode(b.B, dec)
 		lib.VerifAssert(err == nil && len(tail) == 0, "sentinel: what encodes, decodes, consuming exactly the bytes produced")
 		if err == nil {
-			e, isE := out.(error)
+			var got any = out
+			switch pos {
+			case 1:
+				sl, ok := out.([]any)
+				lib.VerifAssert(ok && len(sl) == 2 && sl[0] == int32(7), "sentinel in []any: the collection comes back with its other elements")
+				if ok && len(sl) == 2 {
+					got = sl[1]
+				}
+			case 2:
+				m, ok := out.(map[string]any)
+				lib.VerifAssert(ok && len(m) == 1, "sentinel in map[string]any: the map comes back")
+				if ok {
+					got = m["k"]
+				}
+			case 3:
+				sl, ok := out.([]error)
+				lib.VerifAssert(ok && len(sl) == 1, "sentinel in []error: the slice comes back")
+				if ok && len(sl) == 1 {
+					got = sl[0]
+				}
+			}
+			e, isE := got.(error)
 			lib.VerifAssert(isE && (e == errC11Sentinel || e.Error() == "sentinel"), "sentinel: decodes to an equal error")
-			if id > math.MaxInt16 && id != math.MaxUint16 {
+			if isE && id > math.MaxInt16 && id != math.MaxUint16 {
 				lib.VerifAssert(e == errC11Sentinel, "sentinel: a cached registered error comes back as the same sentinel")
 			}
 		}
